@@ -100,6 +100,17 @@ def coverage(sets_meta, tv, extra):
     return cov
 
 
+def run_tlaps(rel):
+    """Machine-checked laws of the specification itself (unbounded); a failure is a specification error."""
+    import re
+    p = subprocess.run(["timeout", "900", "tlapm", "--threads", "4", os.path.basename(rel)], cwd=os.path.join(C.SPEC, os.path.dirname(rel)),
+                       stdout=subprocess.PIPE, stderr=subprocess.STDOUT, text=True)
+    m = re.search(r"All (\d+) obligations? proved", p.stdout)
+    if not m:
+        raise C.ToolError("tlapm did not prove %s: %s" % (rel, p.stdout[-1500:]))
+    return {"module": rel, "obligations": int(m.group(1)), "discharged": int(m.group(1)), "checker_cmd": "tlapm " + rel}
+
+
 # ---------------------------------------------------------------- C14
 def check_c14(tier):
     t0 = time.time()
@@ -129,8 +140,10 @@ def check_c19(tier):
     chunks, events = (16, 3000) if tier == "quick" else (32, 12000)
     v2, tv, samples = traces(prop, "TraceCache.tla", "TraceCache.cfg", [("cache", chunks, events)], seed, "cache")
     viol += v2
+    proofs = run_tlaps("proofs/CacheProofs.tla")
     cov = coverage([meta], tv, {"samples": rep["samples"].get("histories", samples)[:3] or samples, "feature_counts": rep["counters"],
-                                "histories_replayed_into_impl": rep["counters"].get("histories", 0)})
+                                "histories_replayed_into_impl": rep["counters"].get("histories", 0),
+                                "tlaps": proofs})
     return C.finish(prop, tier, "model_checking", viol, cov,
                     ["out-of-bounds access is observed, not specified: the harness builds the library with debug assertions, where a "
                      "get_unchecked outside the table aborts; an abort is reported as a violation",
